@@ -83,6 +83,15 @@ Proof.
   rewrite app_length, repeat_length, IH, count_occ_app. reflexivity.
 Qed.
 
+Theorem make_bigraph_spec : forall g, wf g ->
+  exists insl, mk_ins g = Ok insl /\ length insl = length g /\
+    forall b, b < length g ->
+      exists ps, nth_error insl b = Some ps /\ length ps = indeg g b /\ forall p, In p ps <-> In b (succs g p).
+Proof.
+  intros g Hwf. destruct (mk_ins_spec g Hwf) as [insl [E [Hl Hn]]]. exists insl. split; [exact E|]. split; [exact Hl|].
+  intros b Hb. exists (ins_spec g b). split; [exact (Hn b Hb)|]. split; [apply ins_spec_length | intros p; apply ins_spec_In].
+Qed.
+
 Lemma short_list_unique : forall (l : list nat) a b, length l < 2 -> In a l -> In b l -> a = b.
 Proof.
   intros [|x [|y l]] a b H Ha Hb; simpl in *; try lia; try tauto.
@@ -95,6 +104,12 @@ Proof.
   intros g r v Hwf Hr Hv. apply reach_spec in Hv. destruct Hv as [l Hw].
   revert l v Hw. apply walk_ind_end; [exact Hr|].
   intros l p b _ _ Hin. eapply Hwf. exact Hin.
+Qed.
+
+Lemma reach_length_le : forall g r, wf g -> r < length g -> length (reach g r) <= length g.
+Proof.
+  intros g r Hwf Hr. rewrite <- (seq_length (length g) 0). apply NoDup_incl_length; [apply reach_NoDup|].
+  intros v Hv. apply in_seq. pose proof (reach_lt g r v Hwf Hr Hv). lia.
 Qed.
 
 Lemma reach_succ : forall g r p y, In p (reach g r) -> In y (succs g p) -> In y (reach g r).
